@@ -88,7 +88,7 @@ func malformedOp(r *drv.Rng, class string, id uint64, el *drv.U128) (drv.OpSpec,
 		o.T = drv.Pick(r, "v4", "v6")
 		o.NHG = 1
 		if o.T == "v4" {
-			o.Key = uint64(11 + r.Intn(5))
+			o.Key = uint64(11 + r.Intn(7))
 		} else {
 			o.Key = uint64(11 + r.Intn(4))
 		}
@@ -122,7 +122,13 @@ func malformedOp(r *drv.Rng, class string, id uint64, el *drv.U128) (drv.OpSpec,
 	case "no-entry":
 		o.T = "none"
 	case "delete-bad-prefix":
-		o.Kind, o.T, o.Key = "DELETE", "v4", uint64(11+r.Intn(5))
+		// every kind of bad key in turn, in both tables: syntax errors and well-formed prefixes of the other family
+		badListSeq++
+		if badListSeq%3 == 0 {
+			o.Kind, o.T, o.Key = "DELETE", "v6", []uint64{11, 12, 13, 14}[(badListSeq/3)%4]
+		} else {
+			o.Kind, o.T, o.Key = "DELETE", "v4", []uint64{11, 12, 13, 14, 15, 16, 17}[badListSeq%7]
+		}
 	case "delete-bad-label":
 		// every kind of bad label in turn: reserved, too large, and above 2^32 with a low half that is a valid (installed) label
 		badListSeq++
